@@ -155,6 +155,7 @@ package bundle
 //@ derive wrapped(*CountingWriter) = accepted(this.w) ; touches wrapped(this.w)
 //@ derive failed(*CountingWriter) = failed(this.w)
 //@ derive content(*CountingWriter) = content(this.w)
+//@ derive under(*CountingWriter) = this.w
 
 //@ func NewCountingWriter
 //@   props C04 C19
